@@ -47,8 +47,8 @@ Definition escape_char (c : N) : str :=
   else if c =? 13 then [92; 114]          (* '\r'    => '\\r'  *)
   else if c =? 34 then [92; 34]           (* '''     => '\\\'' *)
   else if c =? 92 then [92; 92]           (* '\\'    => '\\\\' *)
-  else if ((0 <=? c) && (c <=? 25)) || ((127 <=? c) && (c <=? 159))
-       then u_escape c                    (* '\u{0}'..='\u{19}' | '\u{7F}'..='\u{9F}' *)
+  else if ((0 <=? c) && (c <=? 31)) || ((127 <=? c) && (c <=? 159))
+       then u_escape c                    (* '\u{0}'..='\u{1F}' | '\u{7F}'..='\u{9F}' *)
   else [c].                               (* _ => result.push(chr) *)
 
 Definition escape_body (s : str) : str := flat_map escape_char s.
